@@ -44,6 +44,16 @@ func par() int {
 	return 16
 }
 
+// outDir is where evidence and replay files go: /verif/<kind> for the real repository, a scratch
+// directory under .cache for runs against a scratch copy (VERIF_REPO), so that runs against seeded
+// changes never overwrite the committed evidence.
+func outDir(kind string) string {
+	if repo != "/repo" {
+		return filepath.Join(cache, "scratch", kind)
+	}
+	return filepath.Join(root, kind)
+}
+
 func envOr(k, d string) string {
 	if v := os.Getenv(k); v != "" {
 		return v
@@ -869,7 +879,7 @@ func check(prop, tier, replayFile, onlyScen string, runsOverride int) int {
 	exit := 0
 	unlisted := 0
 	knownMatched := map[string]int{}
-	os.MkdirAll(filepath.Join(root, "replays"), 0o755)
+	os.MkdirAll(outDir("replays"), 0o755)
 	for _, key := range order {
 		g := groups[key]
 		r := g.first
@@ -890,7 +900,7 @@ func check(prop, tier, replayFile, onlyScen string, runsOverride int) int {
 			continue
 		}
 		small := shrink(bin, rep, 90*time.Second)
-		path := filepath.Join(root, "replays", fmt.Sprintf("%s-%s-%d.json", prop, r.Scen, r.Seed))
+		path := filepath.Join(outDir("replays"), fmt.Sprintf("%s-%s-%d.json", prop, r.Scen, r.Seed))
 		final := rep
 		if r2, _ := replayOnce(bin, &small, true); sameViolation(r2, r.Viol) {
 			final = small
@@ -1049,8 +1059,8 @@ func writeEvidence(prop, tier string, baseSeed uint64, scs []scenRow, results []
 			"a clean batch is sampled evidence, not proof",
 		},
 	}
-	os.MkdirAll(filepath.Join(root, "evidence"), 0o755)
-	writeJSON(filepath.Join(root, "evidence", prop+".json"), ev)
+	os.MkdirAll(outDir("evidence"), 0o755)
+	writeJSON(filepath.Join(outDir("evidence"), prop+".json"), ev)
 }
 
 func detTest(prop string, n int) int {
